@@ -586,6 +586,31 @@ void h_c02_charat(void)
 #endif
 }
 
+/* ---- C02.vm.STR_EQ / EQs / NEs: string equality on the VM is equality of length and bytes (what the emitted nl_str_equals /
+ * strcmp compute natively: C01.agree.streq).  The cached hash is treated as an ARBITRARY function of the content (only: equal
+ * content => equal hash), so an implementation that trusts the hash instead of the bytes is refuted without the solver having to
+ * find a real FNV collision.  B(strings of <= 3 bytes). ---- */
+void h_c02_streq(void)
+{
+    build_state();
+    VmState *vm = g_vm;
+    uint8_t K = (uint8_t)VERIF_OP;
+    __CPROVER_assume(in_stack_size >= 2 && in_v1.tag == TAG_STRING && in_v0.tag == TAG_STRING);
+    VmString *a = in_v1.as.string, *b = in_v0.as.string;
+    __CPROVER_assume(a != b && a->header.ref_count >= 2 && b->header.ref_count >= 2);
+    _Bool same = a->length == b->length;
+    for (uint32_t i = 0; i < 3; i++) if (i < a->length && i < b->length && a->data[i] != b->data[i]) same = 0;
+    __CPROVER_assume(!same || a->hash == b->hash);         /* the hash is a function of the content */
+    uint32_t ss0 = vm->stack_size;
+    VmTrap t = vm_core_execute(vm);
+    __CPROVER_assert(t.type == TRAP_HALT || t.type == TRAP_NONE, "C02.vm STR_EQ does not trap");
+    __CPROVER_assert(vm->stack_size == ss0 - 1, "C02.vm STR_EQ consumes two operands, pushes one result");
+    NanoValue r = vm->stack[vm->stack_size - 1];
+    __CPROVER_assert(r.tag == TAG_BOOL && r.as.boolean == (K == OP_NE ? !same : same), "C02.vm STR_EQ result == equality of length and bytes");
+    VERIF_COVER(same && a->length == 3);
+    VERIF_COVER(!same && a->length == b->length && a->hash == b->hash);
+}
+
 /* ---- C14.step.ARR_SLICE.bounded: the census of (array_slice a start length) for an array whose slots hold ints or DISTINCT
  * strings, whatever the array's elem_type tag says: every string copied into the result gains exactly one count (the new
  * reference), strings outside the slice keep theirs, the source array loses the reference popped from the stack.
